@@ -107,7 +107,7 @@ def gen_requests(tier, seed, focus=None, round_no=0):
     reqs = [l.rstrip("\n") for l in open(path, encoding="utf-8", errors="surrogateescape")]
     os.unlink(path)
     # malformed stream (grammar-directed mutations of the valid strings) + the extras above
-    nmal = 700 if tier == "quick" else 6000
+    nmal = 700 if tier == "quick" else 2000
     mpath = os.path.join(vlib.WORK, f"c08_mal_{tier}_{seed}_{round_no}.raw")
     r = vlib.harness(["malformed-gen", str(nmal), mpath], seed=seed * 1000 + round_no)
     if r.returncode != 0:
@@ -120,10 +120,29 @@ def gen_requests(tier, seed, focus=None, round_no=0):
         elif l.startswith("mhall"):
             mal.append("wmhall" + l[5:])
     os.unlink(mpath)
-    mal += extra_malformed(seed * 1000 + round_no, 500 if tier == "quick" else 4000)
+    mal += extra_malformed(seed * 1000 + round_no, 500 if tier == "quick" else 1500)
     if focus and ("whall" in focus or "wmhall" in focus):
         mal += extra_malformed(seed * 1000 + round_no + 500, 3000)
     return reqs + mal
+
+
+# ------------------------------------------------------------------------------------------------
+# model driver (other checks may relink moyo_model while this one runs)
+
+def safe_run_model(requests):
+    last = None
+    for attempt in range(4):
+        if not os.path.exists(vlib.MODEL_BIN):
+            vlib.lake_build(["moyo_model"])
+        try:
+            out = vlib.run_model(requests)
+            if not any(o.startswith("MODEL-CRASH") for o in out):
+                return out
+            last = "model crashed: " + next(o for o in out if o.startswith("MODEL-CRASH"))
+        except OSError as e:
+            last = str(e)
+        time.sleep(3 + 5 * attempt)
+    raise RuntimeError("moyo_model could not be run: " + str(last))
 
 
 # ------------------------------------------------------------------------------------------------
@@ -288,7 +307,7 @@ def s12_check(reqs, answers, model_ok):
     if not cases:
         return 0, [], {}
     mism = []
-    outs = vlib.run_model(["tolreplay " + " ".join(e[0] for e in evs) for _, _, evs, _ in cases]) if model_ok else None
+    outs = safe_run_model(["tolreplay " + " ".join(e[0] for e in evs) for _, _, evs, _ in cases]) if model_ok else None
     lengths = collections.Counter()
     for idx, (q, a, evs, bad) in enumerate(cases):
         lengths[min(len(evs), 64) // 8 * 8] += 1
@@ -512,20 +531,24 @@ def run(tier, seed):
         log(f"[c08] {len(unmatched)} undischarged panic sites -> focused exploration {focus}")
     deadline = BASE_DEADLINE
     all_reqs, all_ans = [], []
-    rounds = 1 if tier == "quick" else 10
-    budget_s = 170 if tier == "quick" else 1100
+    t_explore = time.time()
+    rno_done = 0
+    # thorough: rounds of ~36k requests (new sub-seed each) until 15 minutes of exploration are used, at most 40 rounds
+    rounds = 1 if tier == "quick" else 40
+    budget_s = 170 if tier == "quick" else 900
     try:
         for rno in range(rounds):
-            if rno > 0 and time.time() - t_start > budget_s:
+            if rno > 0 and time.time() - t_explore > budget_s:
                 break
             reqs = gen_requests(tier, seed, focus, rno)
             ans = explore(reqs, f"c08_{tier}_{seed}_{rno}", deadline)
             all_reqs += reqs
             all_ans += ans
+            rno_done = rno + 1
     except RuntimeError as e:
         run.violation("harness_run.txt", str(e), no_input=True)
         return run.finish()
-    cov["rounds"] = rno + 1
+    cov["rounds"] = rno_done
     med = median_us(all_ans)
     deadline = max(BASE_DEADLINE, 200 * med / 1e6)
     cov["median_us"] = med
@@ -608,7 +631,11 @@ def run(tier, seed):
             q = all_reqs[i]
             k, _, sym = q.partition(" ")
             mreqs.append(("hall " if k == "whall" else "mhall ") + sym if sym else ("hall" if k == "whall" else "mhall"))
-        mans = vlib.run_model(mreqs)
+        try:
+            mans = safe_run_model(mreqs)
+        except RuntimeError as e:
+            ob["failures"].append("S11: " + str(e))
+            mans = []
         lenient = []
         for i, ma in zip(hall_idx, mans):
             ih = head_of(all_ans[i]).split(" ")[0]
@@ -621,7 +648,11 @@ def run(tier, seed):
     log(f"[c08] S11 done at {time.time() - t_start:.1f}s")
 
     # ---- S12
-    n12, mism12, st12 = s12_check(all_reqs, all_ans, okm)
+    try:
+        n12, mism12, st12 = s12_check(all_reqs, all_ans, okm)
+    except RuntimeError as e:
+        ob["failures"].append("S12: " + str(e))
+        n12, mism12, st12 = 0, [], {}
     cov["S12_cases_reaching_retry_loop"] = n12
     cov["S12_mismatches"] = len(mism12)
     log(f"[c08] S12 done at {time.time() - t_start:.1f}s")
